@@ -245,8 +245,8 @@ def check_C06(tier, seed):
                ([("TimeWarpMC_m2.tla", "TimeWarpMC_m2_k1.cfg", "m2", 1), ("TimeWarpMC_m2.tla", "TimeWarpMC_m2_k3.cfg", "m2", 3)] if tier == "thorough" else []))
         c.mc_phase("TimeWarpMC_m3.tla", "TimeWarpMC_m3_k1.cfg", MC_NOTE % ("m3 (3 LPs on 3 threads: an event arrives while the entry it has to precede was "
                    "cancelled in place and the anti-message copy is not yet re-inserted)", 1), workers=8, timeout=1500, heap="8g")
-        c.probe_phase("TimeWarpMC_m3.tla", "TimeWarpMC_m3_k1.cfg", [("Probe_NoStragglerOverCancelledEntry", "a straggler is matched against a history "
-                      "that holds an entry cancelled in place")], workers=4, timeout=600, heap="4g")
+        c.probe_phase("TimeWarpMC_m3.tla", "TimeWarpMC_m3_k1.cfg", [("Probe_NoExecOverCancelledEntry", "an event that sorts before the last history entry is executed "
+                      "after it because that entry was cancelled in place (flag-first comparison)")], workers=4, timeout=600, heap="4g")
         _tw_mc_dist(c, tier)
         # the real code on the same micro-models, under many schedules (distinct interleavings of the shared accesses)
         c.micro_phase("m1", 64 if tier == "quick" else 3000)
